@@ -169,6 +169,23 @@ macro_rules! int_domain {
         if <$t>::MIN < 0 {
             vals.extend([(0 as $t).wrapping_sub(1), (0 as $t).wrapping_sub(2), (0 as $t).wrapping_sub(3)]);
         }
+        // wide values whose LOW word / half / byte is a small or round number (a truncating cast inside a shortcut
+        // would see only that): k*2^e + lo for every narrower width e that fits the type
+        for e in [8u32, 16, 32, 64, 96] {
+            for k in [1i128, 3] {
+                for lo in [0i128, 1, 2, 10, 100, 1000, 1_000_000_000] {
+                    for sign in [1i128, -1] {
+                        if e < 120 {
+                            let c = sign * ((k << e) + lo);
+                            #[allow(irrefutable_let_patterns)]
+                            if let Ok(v) = <$t>::try_from(c) {
+                                vals.push(v);
+                            }
+                        }
+                    }
+                }
+            }
+        }
         vals.sort();
         vals.dedup();
         let ty = stringify!($t);
